@@ -160,6 +160,8 @@ class C03System(BuilderSystem):
                 ops += [["set_feed_rate", [v]], ["move", [], {"x": 1, "F": v}], ["rapid", [], {"y": 1, "f": v}],
                         ["probe", ["away"], {"z": 0, "F": v}], ["move_absolute", [], {"x": 2, "F": v}],
                         ["rapid_absolute", [], {"x": 2, "F": v}]]
+        if "feed-rate" in fam:
+            ops += [["set_feed_mode", ["1/time"]], ["set_feed_mode", ["units/min"]], ["set_length_units", ["in"]]]
         if "tool-power" in fam:
             for v in self.scalar_ladder(st, "tool-power"):
                 ops += [["set_tool_power", [v]], ["tool_on", ["clockwise", v]], ["power_on", ["dynamic", v]],
